@@ -31,6 +31,7 @@ func checkC20(ctx *Ctx, r *Report) {
 	c20Unions(ctx, r)
 	c20SchemaAgreement(ctx, r)
 	c20ErrorDiscipline(ctx, r)
+	cfgNilEntries(ctx, r)
 }
 
 // ---------------------------------------------------------------------------
